@@ -27,7 +27,7 @@ pub struct Limits {
 
 impl Limits {
     pub fn quick() -> Limits {
-        Limits { max_decisions: 64, max_paths: 256, max_ops: 200_000 }
+        Limits { max_decisions: 48, max_paths: 96, max_ops: 200_000 }
     }
     pub fn thorough() -> Limits {
         Limits { max_decisions: 512, max_paths: 4096, max_ops: 5_000_000 }
@@ -93,6 +93,7 @@ pub struct Ctx {
     pub seam_errors: Vec<String>,
     pub active: bool,
     pub width: u8,
+    pub job_deadline: Option<std::time::Instant>,
 }
 
 thread_local! {
@@ -165,6 +166,7 @@ pub fn init(kind: Kind, timeout_ms: u64, limits: Limits, hash_mode: HashMode, io
                     seam_errors: vec![],
                     active: false,
                     width: 8,
+                    job_deadline: None,
                 });
             }
         }
@@ -209,6 +211,11 @@ pub fn decide(l: Result<Lit, bool>) -> bool {
     let r: Result<bool, Abort> = with(|c| {
         if let Some(&v) = c.known.get(&l.atom) {
             return Ok(v == l.pos);
+        }
+        if let Some(d) = c.job_deadline {
+            if std::time::Instant::now() > d {
+                return Err(Abort::Truncated("job time cap reached".into()));
+            }
         }
         let av = c.ar.eval_atom(l.atom, &c.wit);
         let taken = Lit { atom: l.atom, pos: av };
@@ -286,7 +293,7 @@ pub fn feasible(extra: &[Lit], model: Option<&mut Witness>) -> Answer {
 pub fn count_op() {
     let over = with(|c| {
         c.ops += 1;
-        c.ops > c.limits.max_ops
+        c.active && c.ops > c.limits.max_ops
     });
     if over {
         abort(Abort::Truncated("cell-operation cap reached".into()));
@@ -328,7 +335,8 @@ pub fn explore<R>(mut f: impl FnMut() -> R) -> Exploration<R> {
             Some(i) => i,
             None => break,
         };
-        if paths.len() >= max_paths {
+        let late = with(|c| c.job_deadline.map_or(false, |d| std::time::Instant::now() > d));
+        if paths.len() >= max_paths || late {
             with(|c| c.queue.push_front(item));
             break;
         }
